@@ -1,4 +1,5 @@
 import CJ.Lemmas.ConnHandler
+import CJ.Gen.ConnCalls
 /-!
 # C03 — unauthenticated connections get no bytes and no early close
 
@@ -228,6 +229,26 @@ theorem geoip_failure_returns_at_once (cls : T → Bytes → Verdict R) (sched :
     (geo : Geo) (hg : geo ≠ .ok) (count : Nat) (ts : List T) (evs : List Ev) :
     handler cls sched geo count ts evs = [.ret] := by
   cases geo <;> simp [handler] at hg ⊢
+
+/-! ## Tie to the source: what `handleNewTCPConn` does with the connection (regenerated on every run)
+
+`CJ/Gen/ConnCalls.lean` is extracted from the syntax tree of `cmd/application/conns.go` in the tree
+under check.  The model's action alphabet (arm the deadline, read, clear the deadline, hand the
+connection to the transports / the proxy) is complete only if the function does nothing else with the
+connection; in particular there is no `Write` and no `Close` on any path. -/
+
+/-- The handler invokes nothing but `RemoteAddr`, `SetDeadline` and `Read` on the client connection,
+hands it only to `getRemoteAsIP`, `io.Copy(io.Discard, ·)` and the transports' `WrapConnection`, touches
+the wrapped connection only to clear the deadline and to pass it to `Proxy` (and a log line), keeps no
+alias of either and starts no goroutine. -/
+theorem conn_calls_ok :
+    (∀ m ∈ CJ.Gen.ConnCalls.clientConnMethods, m ∈ ["Read", "RemoteAddr", "SetDeadline"]) ∧
+    (∀ f ∈ CJ.Gen.ConnCalls.clientConnPassedTo, f ∈ ["getRemoteAsIP", "io.Copy", "t.WrapConnection"]) ∧
+    (∀ m ∈ CJ.Gen.ConnCalls.wrappedMethods, m ∈ ["SetDeadline"]) ∧
+    (∀ f ∈ CJ.Gen.ConnCalls.wrappedPassedTo, f ∈ ["cj.Proxy", "logger.Errorf"]) ∧
+    CJ.Gen.ConnCalls.aliases = [] ∧
+    "Write" ∉ CJ.Gen.ConnCalls.clientConnMethods ∧ "Close" ∉ CJ.Gen.ConnCalls.clientConnMethods := by
+  decide
 
 /-! ## Non-vacuity: concrete classifiers, a probe that comes close, and its trace -/
 
